@@ -3,13 +3,13 @@
     This file contains only statements, each closed by [exact], and their [Print Assumptions].
 
     Reading guide.
-    - [run fixed S D E fuel W] (Exe/ExecModel.v) is the transcription of graphql/executor's
+    - [run fixed S D E fuel W] (ExeA/ArgModel.v) is the transcription of graphql/executor's
       synchronous executor, memo cache included, after the two repairs (defects 1 and 7 of DESIGN
       section 6): schema [S], parsed document [D] (single operation, positions as the parser
       assigned them), coerced boolean variables [E] (for @skip/@include), resolver-outcome tree [W]
       (what every resolver returns, for every object value), [fuel] for fragment expansion.
       Its result is [Done data errors], [Panic] or [OutOfFuel].
-    - [exec_spec S D E fuel W] (Exe/ExecSpec.v) is the reference: ExecuteSelectionSet /
+    - [exec_spec S D E fuel W] (ExeA/ArgSpec.v) is the reference: ExecuteSelectionSet /
       CollectFields / ExecuteField / CompleteValue / ResolveAbstractType written from the
       specification, without state and without short-circuit, returning [data], [all_errors]
       (every field error the algorithm can raise) and [failure_nulls] (the nulls visible in data
@@ -55,10 +55,11 @@
     Nothing else: no bound on sizes, no hypothesis on resolvers' outcomes, none on variables
     beyond what [doc_ok] says about directive conditions. *)
 From Coq Require Import List NArith ZArith Bool.
-From ApiFu Require Import Base.Sexp Exe.ExecData Exe.ExecModel Exe.ExecSpec Exe.ExecHyps
-     Exe.ExecBaseProofs Exe.ExecSpecProofs Exe.ExecCacheProofs Exe.ExecProofs
-     Exe.ExecOrderProofs Exe.ExecShapeProofs Exe.ExecFuelProofs Exe.ExecVisibleProofs Exe.ExecRequestProofs
-     Exe.ExecKeyOrder Exe.ExecKeyOrderProofs.
+From ApiFu Require Val.Values.
+From ApiFu Require Import Base.Sexp ExeA.ArgData ExeA.ArgArgs ExeA.ArgModel ExeA.ArgSpec ExeA.ArgHyps
+     ExeA.ArgBaseProofs ExeA.ArgSpecProofs ExeA.ArgCacheProofs ExeA.ArgProofs
+     ExeA.ArgOrderProofs ExeA.ArgShapeProofs ExeA.ArgFuelProofs ExeA.ArgVisibleProofs ExeA.ArgRequestProofs
+     ExeA.ArgKeyOrder ExeA.ArgKeyOrderProofs.
 Import ListNotations.
 
 (** The executor finishes: no panic, fragment expansion never runs out of fuel. *)
@@ -143,28 +144,40 @@ Theorem C01_get_operation_refines_spec : forall R opname o,
   get_operation R opname = GOp o <-> s_get_operation R (opname_of opname) = Some o.
 Proof. exact get_operation_refines_spec. Qed.
 
-(** ... a request that determines an operation is executed as that operation (so every theorem of
-    this file speaks about [run_request] through [doc_of R o]) ... *)
-Theorem C01_run_request_selected : forall M S R opname E fuel W o,
+(** ... a request that determines an operation, and whose raw variables [raw] coerce for it
+    (CoerceVariableValues, C05's transcription), is executed as that operation with the coerced
+    variables (so every theorem of this file speaks about [run_request] through [doc_of R o vv];
+    what @skip/@include see of the variables is [env_of_vars vv]) ... *)
+Theorem C01_run_request_selected : forall M S R opname raw fuel W o vv,
   s_get_operation R (opname_of opname) = Some o ->
-  run_request M S R opname E fuel W = run M S (doc_of R o) E fuel W.
+  coerce_request_vars S o raw = Values.Ok vv ->
+  run_request M S R opname raw fuel W = run M S (doc_of R o vv) (env_of_vars vv) fuel W.
 Proof. exact run_request_selected. Qed.
 
-(** ... and one that does not (no name and several operations, no or several operations of the
-    name) is refused: no data, exactly one error, without path. *)
-Theorem C01_run_request_refused : forall M S R opname E fuel W,
+(** ... one whose variables do not coerce is refused: no data, exactly one error, without path ... *)
+Theorem C01_run_request_vars_refused : forall M S R opname raw fuel W o,
+  s_get_operation R (opname_of opname) = Some o ->
+  coerce_request_vars S o raw = Values.Err ->
+  exists e, run_request M S R opname raw fuel W = Done None [e] /\ e_path e = [].
+Proof. exact run_request_vars_refused. Qed.
+
+(** ... and one that determines no operation (no name and several operations, no or several
+    operations of the name) likewise. *)
+Theorem C01_run_request_refused : forall M S R opname raw fuel W,
   s_get_operation R (opname_of opname) = None ->
-  exists e, run_request M S R opname E fuel W = Done None [e] /\ e_path e = [].
+  exists e, run_request M S R opname raw fuel W = Done None [e] /\ e_path e = [].
 Proof. exact run_request_refused. Qed.
 
 (** whole requests never crash: composed statement for C03 *)
-Theorem C01_request_total : forall S R opname E n W,
+Theorem C01_request_total : forall S R opname raw n W,
   type_names_okb S = true ->
   (forall o, s_get_operation R (opname_of opname) = Some o ->
-     doc_positions_okb (doc_of R o) = true /\
-     doc_ok S (doc_of R o) E (default_fuel (doc_of R o)) n = true) ->
-  forall fuel, (forall o, s_get_operation R (opname_of opname) = Some o -> fuel = default_fuel (doc_of R o)) ->
-  exists d errs, run_request fixed S R opname E fuel W = Done d errs.
+     coerce_request_vars S o raw <> Values.Panic /\
+     forall vv, coerce_request_vars S o raw = Values.Ok vv ->
+       doc_positions_okb (doc_of R o vv) = true /\
+       doc_ok S (doc_of R o vv) (env_of_vars vv) (default_fuel (doc_of R o vv)) n = true) ->
+  forall fuel, (forall o vv, s_get_operation R (opname_of opname) = Some o -> fuel = default_fuel (doc_of R o vv)) ->
+  exists d errs, run_request fixed S R opname raw fuel W = Done d errs.
 Proof. exact request_total. Qed.
 
 (** stage 2: response keys are in document order after fragment expansion, merging and
@@ -189,7 +202,7 @@ Theorem C01_selection_set_order : forall S D E fuel n children ot sels path j,
     j = JObj kvs /\ map fst kvs = first_occurrences (map fst flat) [].
 Proof. exact (fun S D E fuel n children ot sels path j => selection_set_order S D E fuel n children ot sels path j). Qed.
 
-(** stage B: the same as ONE recursive predicate over the whole data (Exe/ExecKeyOrder.v):
+(** stage B: the same as ONE recursive predicate over the whole data (ExeA/ArgKeyOrder.v):
     [ordered_obj S D E fuel ot sels kvs] — the entries [kvs] of an object are, in this order, one
     per group of CollectFields(ot, sels) (field nodes after fragment expansion and
     @skip/@include, grouped by response key in order of first appearance), each under its
@@ -278,6 +291,7 @@ Print Assumptions C01_exec_total_default_fuel.
 Print Assumptions C01_collect_cache_transparent_refuted_unevaluable.
 Print Assumptions C01_get_operation_refines_spec.
 Print Assumptions C01_run_request_selected.
+Print Assumptions C01_run_request_vars_refused.
 Print Assumptions C01_run_request_refused.
 Print Assumptions C01_request_total.
 Print Assumptions C01_exec_data_ordered.
